@@ -70,7 +70,7 @@ template <int S> struct Runner {
     for (int b = 0; b < nb; ++b) { set_basis_data(p, S, b); check(p); }
     set_generic_data(p, (uint64_t)c.args.seed * 1000 + N); check(p);
     // the same generic data in a frame far from the origin (map coordinates): the defining equations do not care where the origin is
-    for (int i = 0; i <= N; ++i) for (int d = 0; d < D; ++d) p.P(i, d) = p.P(i, d) * 4.0 + ((d & 1) ? 4431207.0 : 482113.0);
+    for (int i = 0; i <= N; ++i) for (int d = 0; d < D; ++d) p.P(i, d) = p.P(i, d) * 4.0 + ((d & 1) ? 482113.0 : 4431207.0);
     check(p);
   }
 };
